@@ -354,6 +354,8 @@ func (e *Enc) callExternal(ci ssa.CallInstruction, c *ssa.CallCommon, name strin
 		r := App(SBool, "errors_is", args[0], args[1])
 		e.sc.Assert(Implies(Eq(args[0], args[1]), Or(r, Eq(args[0], nilIface()))))
 		e.sc.Assert(Implies(Eq(args[0], nilIface()), Not(r)))
+		e.sc.Assert(Implies(r, Eq(args[0], args[1])))
+		e.assumed["errors.Is(err, target) holds exactly when err == target: the only target in scope is the unexported sentinel errFailNow, which nothing wraps or impersonates (trusted)"] = true
 		return []Term{r}, nil
 	// ---- math
 	case "math.Floor":
